@@ -1543,8 +1543,11 @@ func (n *RegexNode) reduceConcatenationWithAdjacentLoops() {
 					next++
 					continue
 				}
-			} else if (currentNode.T == NtOneloop || currentNode.T == NtOnelazy) && nextNode.T == NtMulti && currentNode.Ch == nextNode.Str[0] {
+			} else if (currentNode.T == NtOneloop || currentNode.T == NtOnelazy) && nextNode.T == NtMulti && currentNode.Ch == nextNode.Str[0] &&
+				(currentNode.Options&RightToLeft) == 0 {
 				// Coalescing a loop with a subsequent string
+				// (left-to-right only: in a right-to-left concatenation the character next to the loop is the
+				// last one of the string, not Str[0])
 				// Determine how many of the multi's characters can be combined.
 				// We already checked for the first, so we know it's at least one.
 				matchingCharsInMulti := 1
